@@ -29,7 +29,7 @@ type c17Case struct {
 	Via   string `json:"via"`    // lib, cli
 	Rep   int    `json:"rep,omitempty"`
 	Big   bool   `json:"big,omitempty"` // slice size 96 and larger files, so that the goroutine option really splits the work
-	Stale int    `json:"stale,omitempty"` // the set directory already holds output files of an earlier Create: 1 = longer garbage under the same names, 2 = shorter, 3 = output of a Create with other parameters
+	Stale int    `json:"stale,omitempty"` // the set directory already holds output files: 1 = longer garbage under the same names, 2 = shorter, 3 = unrelated text; 4 = a real earlier Create over the same inputs with ONE block; 5 = a real earlier identical Create whose recovery files were then deleted / corrupted
 }
 
 var c17Names = []string{"f0", "sub/f1", "f2", "sub/deep/f3"}
@@ -116,6 +116,38 @@ func c17CreateIn(c *c17Case, seed int64, r *core.Rec, stale map[string][]byte) (
 	}
 	for n, b := range stale {
 		ioutil.WriteFile(filepath.Join(setDir, n), b, 0644)
+	}
+	if c.Stale == 4 || c.Stale == 5 {
+		// history: an earlier run of the real Create in the same directory
+		blocks := 3
+		if c.Stale == 4 {
+			blocks = 1
+		}
+		var e error
+		if c.Fmt == "p2" {
+			e = par2.Create(filepath.Join(setDir, "s.par2"), abs, par2.CreateOptions{SliceByteCount: c.slice(), NumParityShards: blocks, NumGoroutines: 1})
+		} else {
+			e = par1.Create(filepath.Join(setDir, "s.par"), abs, par1.CreateOptions{NumParityFiles: blocks})
+		}
+		if e != nil {
+			return nil, fmt.Errorf("earlier Create failed: %v", e)
+		}
+		if c.Stale == 5 {
+			first := true
+			for n, b := range c17ReadOutputs(setDir, "s") {
+				if n == "s.par2" || n == "s.par" {
+					continue
+				}
+				if first {
+					os.Remove(filepath.Join(setDir, n))
+					first = false
+				} else {
+					nb := append([]byte{}, b...)
+					nb[len(nb)-1] ^= 0x40
+					ioutil.WriteFile(filepath.Join(setDir, n), nb, 0644)
+				}
+			}
+		}
 	}
 	if c.Fmt == "p2" {
 		perms := permutations(c.N)
@@ -208,7 +240,7 @@ func c17Run(ci interface{}, r *core.Rec) {
 		c17Base[key] = base
 	}
 	var stale map[string][]byte
-	if c.Stale > 0 {
+	if c.Stale > 0 && c.Stale <= 3 {
 		stale = map[string][]byte{}
 		for n, b := range base {
 			switch c.Stale {
@@ -295,7 +327,7 @@ func c17Gen(g *core.Gen) {
 				}
 			}
 			// Create into a directory that already holds (longer / shorter / foreign) files under the output names
-			for st := 1; st <= 3; st++ {
+			for st := 1; st <= 5; st++ {
 				for _, via := range []string{"lib", "cli"} {
 					for _, big := range []bool{false, true} {
 						if big && f == "p1" {
